@@ -8,6 +8,11 @@ CLAIMED = {
    note="Assumed, not proved: etcd/raft's own safety under these obligations; message faults, multi-replica histories and convergence are outside a sequential contract proof. The WAL observers used by the freshness test (InitialState/Snapshot/LastIndex) are assumed contracts here (C06 is about the store).",
    tech="contract-based typestate verification (ghost state + call hooks) against an assumed dependency contract, SMT",
    ref="DESIGN.md §4 C05"),
+ "C08": dict(
+   text="Proof (unbounded) of the clauses a per-function contract can carry: every length or count Save and Metadata.save write into a fixed-width field is converted losslessly under the stated size preconditions (a conversion that can truncate is a failed obligation); Load and Metadata.load/loadKV obtain every fixed-size token through io.ReadFull / binary.Read, never a bare Read (so the parse cannot depend on how the reader fragments the stream); a successful Load leaves sixteen freshly made shard maps (no stale items) and a byte counter equal to the sum of the loaded items' sizes (no stale counter), also on the empty-snapshot path. PLUS a BOUNDED stand-in, labelled as such and not counted as proved: exhaustive Save/Load round trips of every state reachable in <= 4 (thorough: 5) operations, fresh and used targets, three reader fragmentations, header on/off, comparing ids, vector bits, metadata, levels, live links, entry point and unread bytes.",
+   note="The relation 'bytes written by Save = bytes read by Load' (stream grammar) is not expressible in the contract language - that half is bounded, not proved. Assumed: encoding/binary.Read/Write and io.ReadFull contracts (full reads, fixed sizes); graph shape wfGraph is a precondition of Save (established by the index operations, C01); Load's behaviour on corrupt streams (negative level, unknown ids) is outside the property and its panics are not obligations here.",
+   tech="contract-based deductive verification (lossless-conversion obligations, call hooks forbidding partial reads, ghost byte counter, freshness invariants) + a labelled bounded round-trip stand-in",
+   ref="DESIGN.md §4 C08"),
  "C09": dict(
    text="Proof under a stated channel protocol (unbounded in the number of nodes/partitions, every schedule covered by the most general receive): each worker body sends exactly one message on exactly one channel on every path (errors non-nil); the collector spawns one worker per map entry / partition id, consumes exactly as many real messages as it spawned or returns an error, never returns (nil, nil), and its result is ascending by score and at most k long. Neither the functions nor their function literals close the channels (noclose obligation), which is what makes every receive a real message.",
    note="Assumed: goroutine bodies are not executed by the generator - the protocol (who sends how many messages) is declared by hooks and each party is verified against it; sort.Sort sorts w.r.t. Less (assumed contract); 'exactly the k best of the union' is carried only as sorted-prefix-of-what-was-received (multiset equality of the merge is not machine-checked); getSearchQueryNodes' 'every partition on exactly one node list' is assumed; NaN scores excluded by the float-order assumption.",
@@ -30,7 +35,7 @@ CLAIMED = {
    ref="DESIGN.md §4 C03"),
  "C04": dict(
    text="Proof (unbounded) of the apply half: partition.process dispatches every well-formed entry to an apply function whose postcondition determines the new contents and the outcome as a function of (old contents, entry) only - map iteration order, levels, links and entry point cannot influence them by the frame contracts; apply returns nil and notifies exactly once. Batch forms: per-id outcome facts and untouched ids outside the batch.",
-   note="Assumed: well-formedness of the decoded entry (16-byte ids, level >= 0, own metadata map) - establishing it is C12's obligation on proposers; proto.Unmarshal and uuid.FromBytes contracts; the snapshot half (restore(snapshot(s)) = s) is C08's subject and is not claimed here; the step from per-entry determinism to replica equality is the standard induction over the log (not machine-checked).",
+   note="Assumed: well-formedness of the decoded entry (16-byte ids, level >= 0, own metadata map) - establishing it is C12's obligation on proposers; proto.Unmarshal and uuid.FromBytes contracts; the snapshot half (restore(snapshot(s)) = s) is C08's subject: here only Load's 'sixteen fresh shard maps, counters from the stream' postconditions are shared (so a restore cannot keep items of the previous state); the step from per-entry determinism to replica equality is the standard induction over the log (not machine-checked).",
    tech="contract-based deductive verification, ghost capture of the notified outcome, SMT",
    ref="DESIGN.md §4 C04"),
  "C11": dict(
